@@ -178,6 +178,8 @@ class Series(PySeries):
 class Frame(FakeFrame):
     def __getitem__(self, key):
         if isinstance(key, str):
+            if key not in self._d:
+                raise Unsupported("model frame has no column %r" % key)
             return Series(self._d[key], key)
         if isinstance(key, slice):
             return Frame({c: v[key] for c, v in self._d.items()})
@@ -275,7 +277,12 @@ class PL:
     Expr = Expr
 
     @staticmethod
-    def col(name): return Expr(lambda fr: list(fr._d[name]), name)
+    def col(name):
+        def fn(fr):
+            if name not in fr._d:
+                raise Unsupported("model frame has no column %r" % name)
+            return list(fr._d[name])
+        return Expr(fn, name)
     @staticmethod
     def lit(v): return Expr(lambda fr: [v] * fr.height, "literal")
     @staticmethod
